@@ -115,13 +115,7 @@ func viewAtom(in ssa.Instruction) (vatom, bool) {
 
 // loopBlocks: the natural loop of header h.
 func loopBlocks(fn *ssa.Function, h *ssa.BasicBlock) map[*ssa.BasicBlock]bool {
-	out := map[*ssa.BasicBlock]bool{h: true}
-	for _, b := range fn.Blocks {
-		if b != h && h.Dominates(b) && blockReaches(b, h) {
-			out[b] = true
-		}
-	}
-	return out
+	return naturalLoop(h)
 }
 
 // enclosingLoop: the header of the innermost loop whose body b belongs to, counting the blocks that leave the loop
